@@ -30,7 +30,7 @@ Apply(e, s) ==
     [] e.ev = "AppDropStream"  -> SStreamGone(s, "dropped")
     [] e.ev = "StreamErr"    -> SStreamGone(s, e.kind)
     [] e.ev = "StreamEnd"    -> SStreamGone(s, "end")
-    [] e.ev = "Fault"        -> SFault(s, e.op)
+    [] e.ev = "Fault"        -> IF e.op = "send" THEN SFaultSend(s, e.item.id) ELSE SFault(s, e.op)
     [] e.ev = "Panic"        -> SPanic(s)
     [] e.ev = "Spin"         -> SSpin(s)
     [] e.ev = "SinkOp"       -> SSinkOp(s, e.op, e.res, e.unflushed)
